@@ -1,3 +1,188 @@
 package main
 
-func registerIO(e *Engine) {}
+// File-system model ("symfs") and io helpers.
+//
+// The tree lives in ex.ghost["fs"]. Harnesses populate it through vx.FS*
+// functions; the code under test reaches it through the os / io intrinsics
+// below. Every mutating operation is logged (ghost trace) and may be made to
+// fail or to be the crash point by the harness.
+
+import (
+	"fmt"
+	"go/types"
+	"sort"
+	"strings"
+)
+
+type fsNode struct {
+	name    string
+	isDir   bool
+	data    []Value // file content (byte terms)
+	mtime   Value   // time.Time value
+	mode    uint32
+	dirty   bool // written since last fsync (ghost)
+	entriesDirty bool // directory entries changed since last fsync of the directory (ghost)
+	complete bool // ghost: all bytes written and closed (crash consistency)
+	openW   int  // open writers
+	gen     int  // identity of the inode (renames keep it)
+}
+
+type fsState struct {
+	nodes   map[string]*fsNode
+	ops     int      // count of mutating operations so far
+	crashAt int      // crash immediately before mutating op number crashAt (1-based); 0 = never
+	trace   []string // ghost log of operations
+	faults  bool     // when true every operation asks vx.Fault whether to fail
+	nextGen int
+	strict  bool // unknown paths are errors (ENOENT) rather than unsupported
+}
+
+type fsCrash struct{}
+
+func (ex *Exec) fs() *fsState {
+	st, _ := ex.ghost["fs"].(*fsState)
+	if st == nil {
+		st = &fsState{nodes: map[string]*fsNode{}, strict: true}
+		st.nodes["/"] = &fsNode{name: "/", isDir: true}
+		ex.ghost["fs"] = st
+	}
+	return st
+}
+
+func cleanPath(p string) string {
+	if p == "" {
+		return "."
+	}
+	parts := strings.Split(p, "/")
+	var out []string
+	for _, s := range parts {
+		switch s {
+		case "", ".":
+		case "..":
+			if len(out) > 0 {
+				out = out[:len(out)-1]
+			}
+		default:
+			out = append(out, s)
+		}
+	}
+	r := strings.Join(out, "/")
+	if strings.HasPrefix(p, "/") {
+		return "/" + r
+	}
+	if r == "" {
+		return "."
+	}
+	return r
+}
+
+func parentDir(p string) string {
+	p = cleanPath(p)
+	i := strings.LastIndexByte(p, '/')
+	if i <= 0 {
+		if strings.HasPrefix(p, "/") {
+			return "/"
+		}
+		return "."
+	}
+	return p[:i]
+}
+
+func baseName(p string) string {
+	p = cleanPath(p)
+	return p[strings.LastIndexByte(p, '/')+1:]
+}
+
+func (ex *Exec) fsPath(v Value) string {
+	s := argStr(ex, v)
+	if strings.Contains(s, symMarker) {
+		ex.unsupported("file path built from a symbolic value: %q", s)
+	}
+	return cleanPath(s)
+}
+
+// fsErr builds an *fs.PathError-like error value wrapping one of the fs sentinel errors.
+func (ex *Exec) fsErr(op, path, sentinel string) iface {
+	g := ex.eng.globalByName("io/fs", sentinel)
+	inner := ex.load(ex.globalAddr(g)).(iface)
+	return ex.newErr(fmt.Sprintf("%s %s: %s", op, path, ex.errString(inner)), inner)
+}
+
+func (ex *Exec) ioErr(op, path string) iface {
+	return ex.newErr(fmt.Sprintf("%s %s: input/output error (injected)", op, path))
+}
+
+// mutating marks one file-system mutating operation: crash point and fault injection.
+func (ex *Exec) fsMutating(op, path string) (fail bool) {
+	st := ex.fs()
+	st.ops++
+	if st.crashAt != 0 && st.ops == st.crashAt {
+		st.trace = append(st.trace, "CRASH before "+op+" "+path)
+		panic(fsCrash{})
+	}
+	if st.faults {
+		if ex.Choose("fsfault:"+op, 0, 1) == 1 {
+			st.trace = append(st.trace, "FAIL "+op+" "+path)
+			return true
+		}
+	}
+	st.trace = append(st.trace, op+" "+path)
+	return false
+}
+
+func (st *fsState) children(dir string) []string {
+	var out []string
+	prefix := dir
+	if !strings.HasSuffix(prefix, "/") {
+		prefix += "/"
+	}
+	for p := range st.nodes {
+		if p != dir && strings.HasPrefix(p, prefix) && !strings.Contains(p[len(prefix):], "/") {
+			out = append(out, p)
+		}
+	}
+	sort.Strings(out)
+	return out
+}
+
+func registerIO(e *Engine) {
+	e.reg("os.Remove", func(ex *Exec, fr *frame, args []Value) Value {
+		p := ex.fsPath(args[0])
+		st := ex.fs()
+		n := st.nodes[p]
+		if n == nil {
+			return ex.fsErr("remove", p, "ErrNotExist")
+		}
+		if n.isDir && len(st.children(p)) > 0 {
+			return ex.newErr("remove " + p + ": directory not empty")
+		}
+		if ex.fsMutating("unlink", p) {
+			return ex.ioErr("remove", p)
+		}
+		delete(st.nodes, p)
+		if d := st.nodes[parentDir(p)]; d != nil {
+			d.entriesDirty = true
+		}
+		return iface{}
+	})
+	e.reg("os.IsNotExist", func(ex *Exec, fr *frame, args []Value) Value {
+		err := args[0].(iface)
+		if err.t == nil {
+			return False
+		}
+		g := ex.eng.globalByName("io/fs", "ErrNotExist")
+		target := ex.load(ex.globalAddr(g)).(iface)
+		return KBool(ex.errorsIs(err, target, 0))
+	})
+	e.reg("os.IsExist", func(ex *Exec, fr *frame, args []Value) Value {
+		err := args[0].(iface)
+		if err.t == nil {
+			return False
+		}
+		g := ex.eng.globalByName("io/fs", "ErrExist")
+		target := ex.load(ex.globalAddr(g)).(iface)
+		return KBool(ex.errorsIs(err, target, 0))
+	})
+}
+
+var _ = types.Identical
